@@ -11,16 +11,17 @@ open Extracted.Pool PoolArith
 
 /-! ### the machine-translated steps in closed form -/
 
-theorem socStep_eq (a used total c u l s : Rat) :
-    socStep a used total c u l s =
-      (c * (u - l), used + c * (u - l) * scaledSoc (c, u, l, s), total + c * (u - l)) := by
-  unfold socStep scaledSoc
-  by_cases h1 : pyIsclose u l
-  · by_cases h2 : s < l <;> simp [h1, h2]
-  · simp [h1]
+/-- The translated loop body, whatever the shape of its decision tree (clamp as `min(max(…))` or as if/elif, …). -/
+theorem socStep_eq (used total c u l s : Rat) :
+    socStep used total c u l s =
+      (used + c * (u - l) * scaledSoc (c, u, l, s), total + c * (u - l)) := by
+  unfold socStep scaledSoc pyMin pyMax
+  by_cases h1 : pyIsclose u l <;> by_cases h2 : s < l <;> by_cases h3 : (s - l) / (u - l) * 100 < 0 <;>
+    by_cases h4 : 100 < (s - l) / (u - l) * 100 <;>
+    simp only [h1, h2, h3, h4, if_true, if_false, gt_iff_lt] <;> first | rfl | grind
 
-theorem socFinal_eq (a used total : Rat) :
-    socFinal a used total = if isCloseToZero total then 0 else snap (used / total) := by
+theorem socFinal_eq (used total : Rat) :
+    socFinal used total = if isCloseToZero total then 0 else snap (used / total) := by
   unfold socFinal snap
   by_cases h1 : isCloseToZero total
   · simp [h1]
@@ -54,7 +55,7 @@ theorem socIter_eq (s : SocAcc × Option Int) (b : CBat) :
     socIter s (b.toBat socRequired) =
       match b.socArgs with
       | none => s
-      | some a => ((weight a, s.1.2.1 + weight a * scaledSoc a, s.1.2.2 + weight a), tsMax s.2 b.msg.ts) := by
+      | some a => ((s.1.1 + weight a * scaledSoc a, s.1.2 + weight a), tsMax s.2 b.msg.ts) := by
   unfold socIter
   rw [values_soc]
   cases h : b.socArgs with
@@ -68,8 +69,8 @@ theorem tsMax_isSome (c : Option Int) (t : Int) : (tsMax c t).isSome = true := b
 
 theorem foldl_socIter (bs : List CBat) (s : SocAcc × Option Int) :
     let r := (bs.map (CBat.toBat socRequired)).foldl socIter s
-    r.1.2.1 = s.1.2.1 + pySum ((Qs bs).map fun a => weight a * scaledSoc a) ∧
-    r.1.2.2 = s.1.2.2 + pySum ((Qs bs).map weight) ∧
+    r.1.1 = s.1.1 + pySum ((Qs bs).map fun a => weight a * scaledSoc a) ∧
+    r.1.2 = s.1.2 + pySum ((Qs bs).map weight) ∧
     r.2.isSome = (s.2.isSome || !(Qs bs).isEmpty) := by
   induction bs generalizing s with
   | nil => simp [Qs, Rat.add_zero]
@@ -98,19 +99,19 @@ theorem socOf_eq (bs : List CBat) :
     socOf bs = if Qs bs = [] then none
                else some (if isCloseToZero (totalX100 bs) then 0 else snap (usedX100 bs / totalX100 bs)) := by
   unfold socOf socCalc
-  have h := foldl_socIter bs ((0, 0, 0), none)
+  have h := foldl_socIter bs ((0, 0), none)
   simp only [Option.isSome_none, Bool.false_or, Rat.zero_add] at h
   obtain ⟨h1, h2, h3⟩ := h
   by_cases hq : Qs bs = []
   · simp only [hq, List.isEmpty_nil, Bool.not_true] at h3
     simp only [hq, if_true]
-    cases hr : ((bs.map (CBat.toBat socRequired)).foldl socIter ((0, 0, 0), none)).2 with
+    cases hr : ((bs.map (CBat.toBat socRequired)).foldl socIter ((0, 0), none)).2 with
     | none => simp
     | some t => rw [hr] at h3; simp at h3
   · have hne : (Qs bs).isEmpty = false := by simpa [List.isEmpty_iff] using hq
     simp only [hne, Bool.not_false] at h3
     simp only [hq, if_false]
-    cases hr : ((bs.map (CBat.toBat socRequired)).foldl socIter ((0, 0, 0), none)).2 with
+    cases hr : ((bs.map (CBat.toBat socRequired)).foldl socIter ((0, 0), none)).2 with
     | none => rw [hr] at h3; simp at h3
     | some t =>
       simp only [Option.map_some, socFinal_eq, h1, h2, usedX100, totalX100, Qs]
